@@ -618,8 +618,27 @@ func prop(c Case) error {
 	// (h) the encoding is that of the coordinates as they are now: the first two
 	// ordinates of every coordinate are exchanged in place and the same object is
 	// marshalled again
+	// (a Valuer wrapper around the object gives its value before and after: what a wrapper
+	// hands to database/sql is the encoding of the geometry as it is at that moment)
+	sqlMode, sqlRef := c.Mode, refwkb.ISO
+	if sqlMode == "wkb-nan" {
+		sqlMode = "wkb-err"
+	}
+	if sqlMode == "ewkb" {
+		sqlRef = refwkb.EWKB
+	}
+	valuer, _, _ := wrappers(sqlMode, t)
+	for i := 0; i < 2; i++ {
+		_, _ = valuer.Value()
+	}
 	if model.SwapXY(held) {
 		g2 := g.SwappedXY() // from the model: the object is not read back
+		if ndr2, _, err := refwkb.Encode(g2, false, sqlRef); err == nil && !(sqlMode == "wkb-err" && refwkb.HasEmptyPoint(g2)) {
+			v2, err := valuer.Value()
+			if vb2, ok := v2.([]byte); err != nil || !ok || !bytes.Equal(vb2, ndr2) {
+				return fmt.Errorf("%s Value() of a wrapper around the same object after its ordinates were exchanged in place:\n got  % x (%v)\n want % x", sqlMode, v2, err, ndr2)
+			}
+		}
 		want2, _, refErr2 := refwkb.Encode(g2, c.XDR, refMode)
 		if refErr2 == nil && !(c.Mode == "wkb-err" && refwkb.HasEmptyPoint(g2)) {
 			got2, err := cd.marshal(t, bo)
